@@ -539,6 +539,67 @@ theorem skip_path_purges (env : Env) (s : State E) (hp : s.pending = true) (hg :
     rcases handleTurn_cases env s with ⟨_, h'⟩ | ⟨d, _, _, h'⟩ | ⟨_, _, h'⟩ <;> rw [h'] <;>
       exact ⟨by simp [nextState, hc'], by simp [nextState, hc'], hn⟩
 
+/-- "The recorded last-handled state" is written by a handling pass that CLOSES its cycle, and by nothing else. A turn of
+    the loop that changes `base` is a turn in which `process_changing_cause` is reached — not a turn dedicated to the
+    finalizer (adding it, removing the unneeded one), not a blind one, not the purge of a FREE object — its pass closed
+    (every selected handler has finished, or none is selected), and what it writes is the essence of the event at hand.
+    So a state in which `base = some ess` has been reached through a closing pass on that very essence (or started
+    that way): the oracle's clause "last-handled stored by a cycle without a handling pass" (white-box review m4: a
+    finalizer-adding turn that also stored the diff-base made every creation look handled — the final state was
+    perfect, no handler had been called) states the same of the real operator's request log. No hypothesis. -/
+theorem last_handled_written_only_by_closing_pass (env : Env) (s : State E)
+    (hb : (loopStep env s).base ≠ s.base) :
+    s.pending = true ∧ s.gone = false ∧ adjusting env s = false ∧ (decisionOf env s).handlersRun = true ∧
+    (pass env s).closed = true ∧ (loopStep env s).base = some s.ess := by
+  by_cases hp : s.pending = true
+  rotate_left
+  · exact absurd (by unfold loopStep; simp [hp]) hb
+  by_cases hg : s.gone = false
+  rotate_left
+  · have hg' : s.gone = true := by simpa using hg
+    exact absurd (by unfold loopStep; simp [hp, hg']) hb
+  have hnext : ∀ (t : Tick) (pd : Bool) (w : Nat), (nextState env s t pd w).base ≠ s.base →
+      (pass env s).closed = true ∧ (nextState env s t pd w).base = some s.ess := by
+    intro t pd w h
+    by_cases hc : (pass env s).closed = true
+    · exact ⟨hc, by simp [nextState, hc]⟩
+    · exact absurd (by simp [nextState, hc]) h
+  have hrunOf : adjusting env s = false → env.prematch = true → (decisionOf env s).handlersRun = true := by
+    intro ha hpm
+    unfold adjusting at ha
+    rw [dec_run, hpm, ha]; rfl
+  rcases turn_cases env s hp hg with ⟨_, _, _, _, h⟩ | ⟨_, _, h⟩ | ⟨_, _, h⟩ | ⟨ha, hpm, _, _, _, h⟩ | ⟨_, _, _, _, h⟩ |
+    ⟨ha, hpm, _, _, _, h⟩
+  · exact absurd (by rw [h]; rfl) hb
+  · exact absurd (by rw [h]; rfl) hb
+  · exact absurd (by rw [h]; rfl) hb
+  · rw [h] at hb ⊢
+    obtain ⟨hc, he⟩ := hnext _ _ _ (by simpa [releaseTurn] using hb)
+    exact ⟨hp, hg, ha, hrunOf ha hpm, hc, by simpa [releaseTurn] using he⟩
+  · have : (purgeTurn env s).base = s.base := by unfold purgeTurn; split <;> rfl
+    exact absurd (by rw [h]; exact this) hb
+  · rw [h] at hb ⊢
+    rcases handleTurn_cases env s with ⟨_, h'⟩ | ⟨d, _, _, h'⟩ | ⟨_, _, h'⟩ <;> rw [h'] at hb ⊢ <;>
+      (obtain ⟨hc, he⟩ := hnext _ _ _ hb; exact ⟨hp, hg, ha, hrunOf ha hpm, hc, he⟩)
+
+/-- … and neither does a turn that skips the handlers because the cycle STARTS with a carried patch, or because it is held
+    back by the consistency barrier with a patch accumulated: whenever such a turn differs from the ordinary one, the
+    last-handled state is what it was. -/
+theorem last_handled_kept_by_skipping_turns (env : Env) (s : State E) (hp : s.pending = true) (hg : s.gone = false)
+    (ha : adjusting env s = false) (hpm : env.prematch = true) (c : Carried) (hc : c ≠ .none) (dl : Tick) :
+    (loopStepC env c s).base = s.base ∧ (loopStepI env true dl s).base = s.base := by
+  constructor
+  · unfold loopStepC
+    have : (c = .none || !s.pending || s.gone || adjusting env s || !env.prematch) = false := by
+      simp [hc, hp, hg, ha, hpm]
+    rw [this]
+    simp only [Bool.false_eq_true, if_false]
+    split <;> rfl
+  · unfold loopStepI
+    have : (!s.pending || s.gone || adjusting env s || !env.prematch) = false := by simp [hp, hg, ha, hpm]
+    rw [this]
+    simp
+
 /-- The pass after which every SELECTED handler has finished closes the cycle WHATEVER other records the object
     carries — e.g. the UNFINISHED record, same purpose, of a handler that is not selected any more (its field was
     reverted, its label flipped, while it was retrying: the history of seed C03d): the last-handled state becomes the
@@ -668,6 +729,9 @@ theorem stateW_uniform (b : Bool) (base : Option Nat) (ess : Nat) : Uniform (env
   split at hP
   · cases hP; rfl
   · cases hP
+
+/-- non-vacuity of `last_handled_written_only_by_closing_pass`: a turn that does change the last-handled state -/
+example : (loopStep (envW true) (stateW none 1)).base ≠ (stateW none 1).base := by decide
 
 /-- The former C03-F1 scenario as a regression instance: `u0` was retrying, a label edit made it stop
     matching and changed the essence; after two turns the loop is quiescent, converged, and `u0`'s record
